@@ -80,6 +80,34 @@ def gen(tier):
                             steps.insert(1, progs.step_scan('bad'))
                         scs.append(progs.scenario(len(scs) + 1, steps, exec_=ex, machcomb=mc, parallelism=rng.choice([1, 2, 4]),
                                                   machprocs=2 if ex == 'bigmachine' else 0, timeout_s=20, isolate=True))
+    # a reader that fails together with the rows of the same call, consumed by a Scan (a Scanner reads the shard)
+    for ex in ('local', 'bigmachine'):
+        for at in (0, 1, 2):
+            nsh = rng.choice([1, 2])
+            fault = {'mode': 'errrows', 'at': at, 'shard': -1, 'persist': True, 'msg': 'userfault-%d' % rng.randrange(1000)}
+            g = progs.Gen(rng)
+            i = g.add(progs.N('readerfunc', nshard=nsh, shards=[progs.rows(rng, 6, 4) for _ in range(nsh)], batch=2, fault=fault), 'eo', nsh)
+            i = g.add(progs.N('scan', **{'in': [i]}), 'eo', nsh)
+            p = {'nodes': g.nodes, 'out': i, 'taps': []}
+            steps = [progs.step_run('bad', p), progs.step_run('good', healthy(rng)), progs.step_scan('good')]
+            scs.append(progs.scenario(len(scs) + 1, steps, exec_=ex, parallelism=2, machprocs=2 if ex == 'bigmachine' else 0, timeout_s=20, isolate=True))
+    # failures that go away on retry, again after the result was discarded and is computed anew: each time fewer than
+    # the give-up threshold of consecutive losses, more than it in total
+    for ex in ('local', 'bigmachine'):
+        for _ in range(1 if tier == 'quick' else 4):
+            fault = {'mode': 'temp', 'at': 0, 'shard': -1, 'persist': False, 'times': 3, 'msg': 'userfault-%d' % rng.randrange(1000)}
+            g = progs.Gen(rng)
+            i = g.add(progs.N('readerfunc', nshard=1, shards=[progs.rows(rng, 5, 4)], batch=2, fault=fault), 'eo', 1)
+            p = {'nodes': g.nodes, 'out': i, 'taps': []}
+            g2 = progs.Gen(rng, nargs=1, argkinds=[('eo', 1)])
+            j = g2.add(progs.N('arg', arg=0), 'eo', 1)
+            j = g2.add(progs.N('map', **{'in': [j]}, f='inc'), 'eo', 1)
+            p2 = {'nodes': g2.nodes, 'out': j, 'taps': []}
+            steps = [progs.step_run('bad', p), progs.step_scan('bad'), progs.step_discard('bad'), {'do': 'resetfaults', 'as': '', 'res': '', 'args': []},
+                     progs.step_run('again', p2, ['bad']), progs.step_scan('again'),
+                     progs.step_discard('bad'), {'do': 'resetfaults', 'as': '', 'res': '', 'args': []},
+                     progs.step_run('again2', p2, ['bad']), progs.step_scan('again2')]
+            scs.append(progs.scenario(len(scs) + 1, steps, exec_=ex, parallelism=2, machprocs=2 if ex == 'bigmachine' else 0, timeout_s=20, isolate=True))
     return scs
 
 
